@@ -16,6 +16,9 @@ pub type Cfb = CompoundFile<Io>;
 
 #[derive(Clone, Debug, Default)]
 pub struct Oracles {
+    /// C07: a stream with an open handle may be removed; the handle is kept (detached) and
+    /// used later - it must touch nothing. No stream is created while such a handle exists.
+    pub stale_handles: bool,
     /// full dump vs model every n ops (0 = only at the end)
     pub dump_every: usize,
     /// C02: snapshot + reopen (both modes) at every clean boundary
@@ -80,6 +83,9 @@ pub struct Engine {
     pub io: Io,
     pub model: Model,
     pub handles: Vec<Option<Handle>>,
+    /// handles whose own stream has been removed (oracles.stale_handles)
+    pub stale: Vec<cfb::Stream<Io>>,
+    pub stale_since: usize,
     pub version: u8,
     pub max_buf: Option<u32>,
     pub pool: Vec<String>,
@@ -256,6 +262,9 @@ impl Engine {
             Some(p) => {
                 if version == 4 {
                     // the crate's own path-based entry point creates the (version 4) file
+                    // "If a file already exists at the given path, this will overwrite it":
+                    // a longer file of other bytes is there already
+                    std::fs::write(p, vec![0xABu8; 70_000]).map_err(|e| Fail::new("harness|file", e.to_string()))?;
                     let made = guard("cfb::create", || cfb::create(p).map(|c| drop(c)))?;
                     made.map_err(|e| Fail::new("mismatch|cfb::create|path|Ok|Err", format!("cfb::create({:?}) failed: {}", p, e)))?;
                     precreated = true;
@@ -284,6 +293,8 @@ impl Engine {
             io: peer,
             model: Model::new(),
             handles: (0..4).map(|_| None).collect(),
+            stale: Vec::new(),
+            stale_since: 0,
             version,
             max_buf,
             pool,
@@ -324,6 +335,8 @@ impl Engine {
             io: peer,
             model,
             handles: (0..4).map(|_| None).collect(),
+            stale: Vec::new(),
+            stale_since: 0,
             version,
             max_buf,
             pool,
@@ -357,6 +370,8 @@ impl Engine {
             io,
             model,
             handles: (0..4).map(|_| None).collect(),
+            stale: Vec::new(),
+            stale_since: 0,
             version: 3,
             max_buf: None,
             pool,
@@ -572,7 +587,24 @@ impl Engine {
                     BadKind::InvalidName => {
                         let c = self.model.storages();
                         let mut chain = c[pick(*base, c.len())].clone();
-                        let bad = match *name % 8 {
+                        // over-long names that extend an existing sibling (preferably one of
+                        // exactly 31 units): equal to it in the first 31 units, up to case
+                        let extended = |variant: bool, suffix: char| -> Option<String> {
+                            let node = self.model.get(&chain)?;
+                            let kids = node.children();
+                            let best = kids.iter().map(|k| crate::names::units(&k.name).len()).max()?;
+                            let longest: Vec<&String> = kids.iter().filter(|k| crate::names::units(&k.name).len() == best).map(|k| &k.name).collect();
+                            let base_name = longest[pick(*name, longest.len())];
+                            let mut s = if variant { crate::names::case_variant(base_name, 0x5555_5555 ^ (*name as u32), *name as u8) } else { base_name.clone() };
+                            while crate::names::units(&s).len() <= 31 {
+                                s.push(suffix);
+                            }
+                            Some(s)
+                        };
+                        let bad = match *name % 11 {
+                            8 => extended(false, 'q').unwrap_or_else(|| "x".repeat(32)),
+                            9 => extended(true, 'Q').unwrap_or_else(|| "x".repeat(33)),
+                            10 => extended(true, '\u{00E9}').unwrap_or_else(|| "\u{00E9}".repeat(32)),
                             0 => "a:b".to_string(),
                             1 => "back\\slash".to_string(),
                             2 => "bang!".to_string(),
